@@ -55,7 +55,7 @@ CLAIMS.update({
         technique="Lean 4 theorems over the whole residue tree (atom balance for every counting predicate: C05_tree_atoms; ring-closure and bond balance of the Spec molecule: C05_tree_rings; per-splice corollaries of the graft lemma) + RDKit balance over the complete residue vocabulary",
         text="C05_tree_atoms: for every well-formed tree and every predicate on atom texts, atoms(result) + lost = gained, where lost = one marker per linkage (the parent's linking O/N) plus the anomeric O of N-linked children and gained = all residue atoms plus one N per N-linkage. "
              "C05_tree_rings: ring closures and bond events of the denoted molecule are the sums over the residues. Every sampled glycan's element counts (incl. H) and cyclomatic ring count are compared with the sum over its residues converted alone minus "
-             "(n-1) H2O; every vocabulary residue appears as child and as parent, every alditol as reducing end.",
+             "(n-1) H2O; every vocabulary residue appears as child and as parent, every alditol as reducing end. C05_mark_one_atom: over the Model of Monomer.mark (tied by the element change observed in every call) exactly one O or N becomes the marker of its kind and nothing else changes.",
         note="partial: the theorems count atom tokens, bond events and ring closures of the token semantics; implicit "
              "hydrogens are computed by RDKit in the sweep, not in Lean. " + NOTE, ref="6 C05"),
     "C06": dict(
@@ -79,7 +79,7 @@ CLAIMS.update({
              "outside the theorem. " + NOTE, ref="6 C09"),
     "C10": dict(
         technique="Lean 4 theorems on the release gate and, by induction over the written forest, on the walker's accumulation of the full flag (C10_forest_full) + obstacle-injection runs under full=True/False",
-        text="C10_full_true, C10_full_false, C10_full_false_same_as_true and the pinned counterexample are proved/decided; C10_react_full_never_recovers / C10_react_token_flag / C10_react_stall_not_full over the Model of all rounds of SMILESReaktor.react (tied by every round's side-chain table and the returned flag on the residues of every run): the flag is and'ed token by token, never recovers in a later round, a stalled round gives false. C10_addNodeEdge_full states how the "
+        text="C10_full_true, C10_full_false, C10_full_false_same_as_true and the pinned counterexample are proved/decided; C10_fragments_not_full: for every written glycan the walked graph has one connected component plus one per floating part of any size (Model of the connectivity clause of TreeWalker.parse), so a floating part is never reported full; C10_react_full_never_recovers / C10_react_token_flag / C10_react_stall_not_full over the Model of all rounds of SMILESReaktor.react (tied by every round's side-chain table and the returned flag on the residues of every run): the flag is and'ed token by token, never recovers in a later round, a stalled round gives false. C10_addNodeEdge_full states how the "
              "walker accumulates the flag, C10_forest_full / C10_tree_full lift it to whole forests of any shape (full after numbering = full before, every residue realised, no '?' in a label) and the code's tree_full is compared with that conjunction per glycan. Random glycans with exactly one injected obstacle are converted under both settings and judged by the Spec.",
         note="An obstacle that makes Glycan() raise instead of returning '' (unknown sugar inside a glycan) is counted, not flagged: no molecule is released and convert returns ''. " + NOTE, ref="6 C10"),
     "C11": dict(
@@ -112,7 +112,7 @@ CLAIMS.update({
         text="C04_single_mod / C04_commute are proved over the Model of the reactor (token dispatch for positioned and position-less tokens, extract_bridge, set_fg, all rounds), which reproduces the code's side_chains on every observed call; the Model of assemble_chains' string half reproduces the stored residue SMILES text-identically and C04_certified_assemble proves that it denotes the placeholder molecule with every fragment grafted at its placeholder (every other atom and stereo mark unchanged). C04_fg_fragments_wellformed, C04_tables_consistent, C04_fragments_with_other_labels are decided by the kernel over the complete regenerated "
              "tables. Thorough runs every library sugar x every free position x every functional-group token (54k conversions); for ~95 tokens the expected "
              "molecule is built from a hand-written fragment table that says what the token stands for and whether the O/N carries it or is replaced; "
-             "for all tokens the sugar skeleton must stay a stereo-substructure; sets of 2-4 modifications are written in all orders.",
+             "for all tokens the sugar skeleton must stay a stereo-substructure; sets of 2-4 modifications are written in all orders. C04_default_anchor_table: the Model of the reactor's ring_c (anchor of position-less groups; compared with self.ring_c on the features before check_for_anhydro) is the number of the anomeric carbon on every library row.",
         note="partial: which atom carries the placeholder (find_oxygen / carbon numbering: modelled in Mono/EnumC.lean and tied under C01, the RDKit edit itself not) is judged by the sweep; all rounds of react() are modelled (React.reactLoop) except parse_poly_carbon names; deoxy chains ('H') and the uronic '(=O)O' chain are outside the graft certificate; two open known-finding families "
              "(O replaced instead of carrying the group for 33 tokens; positional groups on amine positions). " + NOTE, ref="6 C04"),
     "C08": dict(
@@ -134,7 +134,7 @@ CLAIMS.update({
     "C16": dict(
         technique="Lean 4 theorems (node count of the walked forest = size; node matchers of count: stricter matching never adds a match for one-token residues, kernel-checked counterexample otherwise) + Model/code correspondence of recipe_equality + summary/count/save_dot against the written tree and RDKit",
         text="C16_monomers is proved for every forest; C16_some_le_basic_partial / C16_some_gt_basic_counterexample over the matcher Model, which is compared with recipe_equality on 1500 residue pairs per run; summary() is compared with the written tree and with RDKit on get_smiles, count() with the Spec count for "
-             "single-residue queries in all modes, self- and sub-chain queries must match at least once, monotonicity basic >= some >= every, save_dot parsed back.",
+             "single-residue queries in all modes, self- and sub-chain queries must match at least once, monotonicity basic >= some >= every, save_dot parsed back. C16_contains_itself: over the Model of count(match_nodes=True) (Embed.count = number of induced sub-graph isomorphisms under the node / edge matchers, compared with glycan.py on about 1000 counts per run) every glycan contains itself for every reflexive node matcher, edge matching on or off, whatever the shape of its linkage labels; C16_matchers_reflexive.",
         note="partial: count's Spec (countSpec over DiGraphMatcher) is executable only; one open known finding (every > some for differently spelled residues). " + NOTE, ref="6 C16"),
 })
 
